@@ -62,15 +62,17 @@ def wrap_key(phrase: str, kdf: str, cipher: str, rounds: int, salt: bytes) -> by
     return hashlib.pbkdf2_hmac(KDFS[kdf], phrase.encode(), salt, rounds, KEYLEN[cipher])
 
 
-def pair_text(phrase, kdf, cipher, rounds, salt, mac, data_cipher, data_key, iv, pid="JTHVQF8/BHU="):
+def pair_text(phrase, kdf, cipher, rounds, salt, mac, data_cipher, data_key, iv, pid="JTHVQF8/BHU=", order=None):
     wk = wrap_key(phrase, kdf, cipher, rounds, salt)
     plain = f"type=key:cipher={qv(data_cipher)}:key={qv(base64.b64encode(data_key).decode())}".encode()
     blob = seal(wk, plain, mac, iv)
-    return pair_from_blob(kdf, cipher, rounds, salt, mac, blob, pid), blob
+    return pair_from_blob(kdf, cipher, rounds, salt, mac, blob, pid, order), blob
 
 
-def pair_from_blob(kdf, cipher, rounds, salt, mac, blob, pid="JTHVQF8/BHU="):
-    pdict = f"pass2key={qv(kdf)}:cipher={qv(cipher)}:rounds={rounds}:salt={qv(base64.b64encode(salt).decode())}"
+def pair_from_blob(kdf, cipher, rounds, salt, mac, blob, pid="JTHVQF8/BHU=", order=None):
+    """order: permutation of the four entries of the phrase dictionary (a dictionary: their order carries no meaning)."""
+    ents = [f"pass2key={qv(kdf)}", f"cipher={qv(cipher)}", f"rounds={rounds}", f"salt={qv(base64.b64encode(salt).decode())}"]
+    pdict = ":".join(ents[i] for i in (order or range(4)))
     return f"pair/(phrase/{q(pid)}/{q(pdict)},{q(mac)},{q(base64.b64encode(blob).decode())})"
 
 
